@@ -5,8 +5,10 @@ import Restful.Driver.Serve
 import Restful.Driver.Response
 import Restful.Driver.Mime
 import Restful.Driver.Cors
+import Restful.Driver.Registry
+import Restful.Driver.Entity
 namespace Restful.Driver
 
-def statelessHandlers : List (SExp → Option String) := [handleSame, handleClass, handleServe, handleResponse, handleMime, handleCors]
+def statelessHandlers : List (SExp → Option String) := [handleSame, handleClass, handleServe, handleResponse, handleMime, handleCors, handleRegistry, handleEntity]
 
 end Restful.Driver
